@@ -128,6 +128,24 @@ func HarnessSeq() {
 	}
 	// one symbolic probe index covers GetLog for every index at once
 	probe("C05.end", e.L, m, vrt.U64("probe"))
+	if vrt.Param("audit", 0) == 1 {
+		vrt.Quiesce()
+		auditSegments("C09.audit", e.FS, e.Meta, m)
+	}
+	if vrt.Param("endreopen", 0) == 1 {
+		// "identically before and after a reopen": whatever the K operations were - reopens
+		// among them - one more clean Close/Open shows the same log
+		err := e.L.Close()
+		vrt.Assert("C05.close-ok", err == nil)
+		err = e.open()
+		vrt.Assert("C05.reopen-ok", err == nil)
+		if err != nil {
+			return
+		}
+		checkAgainst("C05.after-final-reopen", e.L, m)
+		probe("C05.after-final-reopen", e.L, m, vrt.U64("probe2"))
+		vrt.Reach("final-reopen")
+	}
 	vrt.Reach("seq-done")
 }
 
